@@ -16,7 +16,8 @@ RULE = (
     "omitted, extension fields and signal blocks with int/negative/float/string/identifier/array/"
     "nested-array values, services, devices; FCP keywords used as names) are printed to FCP text in a "
     "plain layout and in k seeded formatting variants (comments of both kinds, tabs/newlines, optional "
-    "'|' and separators) and parsed by get_fcp_from_string (and get_fcp on a file for a sample).  "
+    "'|' and separators) and parsed by get_fcp_from_string (and get_fcp on a file for a sample, also with "
+    "part of the declarations moved into 'mod' imports).  "
     "Oracle: to_dict() == expected tree computed from the description (source order, one default "
     "binding per struct); all variants of one description must agree.  distinct = distinct grammar-"
     "feature sets x variant kind; a run that did not exercise every production is inconclusive."
@@ -81,6 +82,38 @@ def check_description(run, i, decls, nvariants, tmpdir=None):
             return
         run.case(sig="%s|file" % fsig)
         run.count("file_parses")
+        # the remaining production, mod_expr: a dependency-closed part of the declarations moves into
+        # imported files; the tree must hold the same declarations (compared per kind as multisets,
+        # C20 explores the import mechanism in depth)
+        from . import c20
+
+        counter = [0]
+        tree = c20.build_tree(run.rng("modtree", i), decls, "main.fcp", 0, counter)
+        if counter[0]:
+            root = os.path.join(tmpdir, "mod%d" % i)
+            os.makedirs(root)
+            files = c20.write_tree(root, tree, lambda f: S.Style(run.rng("modstyle", i, f.relpath)))
+            case = {"description": decls, "files": files, "via": "file with mod imports"}
+            try:
+                res, lg = PC.parse_file(os.path.join(root, "main.fcp"))
+            except BaseException as e:
+                run.violation("%s: %s (schema with mod imports)" % (type(e).__name__, str(e)[:200]), case)
+                return
+            finally:
+                shutil.rmtree(root, ignore_errors=True)
+            if res.is_err():
+                run.violation("schema with mod imports rejected: %s" % repr(res.err())[:300], case)
+                return
+            got = res.unwrap().to_dict()
+            exp = S.expected_dict(decls)
+            for kind in ("structs", "enums", "impls", "services", "devices"):
+                if c20.multiset(got.get(kind, [])) != c20.multiset(exp[kind]):
+                    case["got"] = got.get(kind)
+                    run.violation("tree of a schema with mod imports differs from the declarations in '%s'" % kind, case)
+                    return
+            run.count("feature/decl:mod")
+            run.count("mod_parses")
+            run.case(sig="%s|mod" % fsig)
 
 
 def probe_k4(run):
@@ -128,7 +161,7 @@ def run(run):
 
 
 def conclude(run):
-    run.require("parses", "trees_equal", "file_parses")
+    run.require("parses", "trees_equal", "file_parses", "mod_parses")
     missing = [f for f in sorted(PC.REQUIRED_FEATURES) if run.counters.get("feature/" + f, 0) == 0]
     if missing:
         run.inconclusive_because("grammar features never generated: %s" % missing)
